@@ -56,8 +56,22 @@ theorem C02_lifetimes (mode : Mode) (rs : List Req) (s0 sf : MState)
     (dropInjector srcDropOrder sf).guards = [] ∧ (dropInjector srcDropOrder sf).maps = s0.maps :=
   ⟨(C02_restores mode rs s0 sf hg h hdis hfresh).2.2.1, (C02_restores mode rs s0 sf hg h hdis hfresh).2.1⟩
 
+/-- **While the injector lives, the most recent installation for a function is the one in
+    effect**: in any history `pre ++ [r] ++ post` in which no later request touches `r`'s entry
+    range or trampoline page, a call of `r.func` after the whole history reaches `r`'s fake. -/
+theorem C02_latest_wins (mode : Mode) (pre post : List Req) (func fake jit : Nat) (s0 sf : MState)
+    (h : installs mode s0 (pre ++ Req.mk func (Payload.exec fake) jit :: post) = some sf)
+    (hdis : ∀ r ∈ pre ++ Req.mk func (Payload.exec fake) jit :: post, ∀ x, inJit r x → ¬ inSlot r x)
+    (hfresh : FreshMaps s0.maps (pre ++ Req.mk func (Payload.exec fake) jit :: post))
+    (hsep : ∀ r ∈ post, ∀ x, (func ≤ x ∧ x < func + 12) ∨ (jit ≤ x ∧ x < jit + 4096) → ¬ inJit r x ∧ ¬ inSlot r x)
+    (hf : func < 18446744073709551616) (hj : jit < 18446744073709551616) (hk : fake < 18446744073709551616)
+    (c : X86.Cpu) (hc : c.rip = func) :
+    ∃ k c', k ≤ 4 ∧ X86.run sf.mem k c = some c' ∧ c'.rip = fake ∧ SameButRax c c' :=
+  latest_wins mode pre post func fake jit s0 sf h hdis hfresh hsep hf hj hk c hc
+
 end Inj.Props
 
+#print axioms Inj.Props.C02_latest_wins
 #print axioms Inj.Props.C02_source_restores_newest_first
 #print axioms Inj.Props.C02_restores
 #print axioms Inj.Props.C02_entry_bytes
